@@ -2858,7 +2858,9 @@ func (lv *leafValue) lastUpdateBetween(hLog appendable.Appendable, initialTs, fi
 	hOff := lv.hOff
 	skippedUpdates := uint64(0)
 
-	for i := uint64(0); i < lv.hCount; i++ {
+	// hCount counts the versions held in the history log, a record may hold several of them:
+	// the walk ends when all of them were seen, the offset found in the oldest record is not followed
+	for skippedUpdates < lv.hCount {
 		r := appendable.NewReaderFrom(hLog, hOff, DefaultMaxNodeSize)
 
 		hc, err := r.ReadUint32()
